@@ -5,6 +5,9 @@ HERE = os.path.dirname(os.path.dirname(os.path.abspath(__file__)))
 
 # id -> (technique, level text, level note, design ref)
 CHECKS = {
+ "C06": ("exhaustive enumeration of encodings x flags x PC/SP boundary sets, differential against an independent reference SM83 model",
+         "All 512 encodings x 16 flag states x 22 PC placements (every fetch region, its first and last bytes, instructions crossing a region end, wrap) x 30 SP values for stack instructions x all 256 JR displacements x 256 absolute targets are executed by the interpreter and by the reference CPU running on a twin machine's bus; PC, SP, ordered stack writes, machine cycles, block-end flag, status and decoder length are compared; the 11 undefined opcodes must decode as invalid and be refused without side effects. Complete for the enumerated product.",
+         "trusted: models::sm83 incl. literal copies of the published length and cycle tables (cross-checked against its own step function); PC/SP sets are boundary-complete, not all 2^16 values", "DESIGN.md §5 C06"),
  "C05": ("exhaustive enumeration + generated operands, differential against an independent reference SM83 model",
          "Every data opcode is executed by the interpreter and by an independent bit-field-decoded reference CPU over the complete 8-bit operand/flag spaces, all 16-bit operands for INC/DEC/POP/PUSH/pointer forms and all SP x e8 pairs; ADD HL,rr on a boundary lattice plus 2^21 generated pairs per register (all 2^32 in the thorough tier). Exhaustive for the finite parts, sampled for ADD HL in quick.",
          "trusted: models::sm83 (unit-tested against published tables and BCD identities); cartridge fixed to MBC1+32KiB RAM", "DESIGN.md §5 C05"),
